@@ -344,12 +344,11 @@ impl Sync for CopiaSync {
         delta: &Delta,
         mut output: W,
     ) -> Result<()> {
-        // Invariant: expected output matches source size
-        debug_assert_eq!(
-            delta.expected_output_size(),
-            delta.source_size,
-            "expected output size must equal source size"
-        );
+        // A delta is untrusted input: a header whose declared source size
+        // disagrees with its operations is an error, not an invariant.
+        if delta.expected_output_size() != delta.source_size {
+            return Err(CopiaError::CorruptedDelta);
+        }
 
         // Validate delta first
         delta.validate()?;
@@ -375,10 +374,9 @@ impl Sync for CopiaSync {
             }
         }
 
-        debug_assert_eq!(
-            bytes_written, delta.source_size,
-            "bytes written must equal source size"
-        );
+        if bytes_written != delta.source_size {
+            return Err(CopiaError::CorruptedDelta);
+        }
 
         // Verify checksum if enabled
         if self.config.verify_checksum {
